@@ -298,12 +298,13 @@ def run(rep, tier):
     facts5 = get_facts('K5')
     rep.unit(facts5)
     clause_d(facts5, rep)
-    if tier == 'thorough':
-        for cfg in ('K3', 'K4', 'K6'):
-            f2 = get_facts(cfg)
-            rep.unit(f2)
-            clause_a(f2, rep)
-            clause_b(f2, rep)
+    # the run-time dispatch front end (x86_ifuncs) exists only in the dynamic-dispatch configurations: process-wide state
+    # there (a lazily bound kernel pointer, a cached CPU feature word) is shared by all threads - K8 in every run
+    for cfg in (('K8',) if tier == 'quick' else ('K8', 'K3', 'K4', 'K6')):
+        f2 = get_facts(cfg)
+        rep.unit(f2)
+        clause_a(f2, rep)
+        clause_b(f2, rep)
     from . import c17_witness
     c17_witness.check(rep)
     rep.trust('clang 14 front end (const-correctness is enforced by the compiler; the rules look for the escape hatches const_cast / mutable / statics)',
